@@ -94,19 +94,21 @@ NOT_YET = {}
 # additions of waves 6-7 (appended to the texts above)
 EXTRA = {
  "C01": "Rounds 6-7 added: csr input with unsorted indices, energies nearly equal on a huge offset, 129x129 and 150x150 lattices (more than 2^16 stored pairs) against a sparse vectorised oracle.",
- "C02": "Rounds 6-7 added: grids with 264, 270 and 650 position cells.",
+ "C02": "Rounds 6-8 added: grids with 264, 270 and 650 position cells; an order witness for the position volumes (volume ratios of one direction across shells equal the ratios of the shell-boundary cubes).",
  "C05": "Rounds 6-7 added: every 4-subset of the tenths 0.1-0.8 and 5-subset of 0.1-0.7 as radial grid; randomS N = 66..272; comparisons carry an absolute floor of 1e-9 of the largest entry.",
  "C07": "Rounds 6-7 added: the half-hypercube selection asked for EVERY N on one level-2 polytope.",
- "C08": "Rounds 6-7 added: get_convex_hulls and the position grid's own adjacency/border/distance getters in the history alphabet; fulldiv 8/40/272 in the prefix claim.",
- "C09": "Rounds 6-7 added: the empty index subset in three spellings, radii that are thirds under direction grids of a few dozen points, range() texts whose start is finer than the step.",
+ "C08": "Rounds 6-7 added: get_convex_hulls and the position grid's own adjacency/border/distance getters in the history alphabet; fulldiv 8/40/272 in the prefix claim; the subdivision event also subdivides twice without reading and then reads all nodes / the complete half selection.",
+ "C09": "Rounds 6-7 added: the empty index subset in three spellings, radii that are thirds under direction grids of a few dozen points, range() texts whose start is finer than the step; the index helpers for EVERY rotation-grid size 1..112 (thorough 1..272); randomS grids with 50-500 directions in the decomposition.",
  "C10": "Rounds 6-7 added: a molecule with a massless site, gro and pdb input files, every row count 1..10, a writer history on a grid reaching beyond half the periodic cell.",
- "C11": "Rounds 6-7 added: a 40-rotation grid in the quick tier with radii [0.3, 0.6, 0.9].",
- "C13": "Rounds 6-7 added: every ordered tuple of 3 (n = 4..6) and 4 (n = 5) join lists in one call, also after a deletion.",
+ "C11": "Rounds 6-8 added: a 40-rotation grid in the quick tier with radii [0.3, 0.6, 0.9]; a first molecule read from a .gro file (3 nm periodic box) with placements beyond half the box; a molecule whose principal axes are defined by its masses only.",
+ "C13": "Rounds 6-8 added: every ordered tuple of 3 (n = 4..6) and 4 (n = 5) join lists in one call, also after a deletion; structured histories on 130 and 260 cells.",
+ "C03": "Round 8 added: N = 257, 258.",
+ "C04": "Round 8 added: N = 66, 70 (more than 128 double-cover cells) in the quick tier.",
  "C14": "Rounds 6-7 added: a steady-ramp landscape spanning more than the cap, the setting which='SM' without shift, one 2250-cell grid (cube4D_30 x ico_25 x 3 radii) under shift-invert settings.",
- "C16": "Rounds 6-7 added: stops off the lattice and steps small relative to the stop (defect F17 found and fixed), lists with a repeated entry, minus signs separated from their digits.",
+ "C16": "Rounds 6-7 added: stops off the lattice and steps small relative to the stop (defect F17 found and fixed), lists with a repeated entry, minus signs separated from their digits, descending ranges with off-lattice stops.",
  "C17": "Rounds 6-7 added: 4 tokens in the quick tier, 5 (thorough 6) tokens over a reduced alphabet.",
  "C18": "Rounds 6-7 added: branching histories (deepcopy / pickle round trip at every point, the copy subdivided further, the original re-checked).",
- "C20": "Rounds 6-7 added: legends with inner blanks, commas, keyword-like and non-ASCII text; file names containing the other type's extension.",
+ "C20": "Rounds 6-7 added: legends with inner blanks, commas, keyword-like and non-ASCII text; file names containing the other type's extension; tables of 1500 and 70000 rows; time axes starting below zero.",
 }
 for _k, _v in EXTRA.items():
     CHECKS[_k]["text"] = CHECKS[_k]["text"].rstrip() + " " + _v
